@@ -7,6 +7,8 @@
 pub mod refmodel;
 
 #[cfg(kani)]
+mod h_c03;
+#[cfg(kani)]
 mod h_c05;
 #[cfg(kani)]
 mod h_c06;
